@@ -38,6 +38,13 @@ func RetrieveSDRRepository(ctx context.Context, s Session) (SDRRepository, error
 		if err != nil {
 			return err
 		}
+		if initialInfo.Records == 0 {
+			// an empty repository has no first record to request (the BMC
+			// answers Get SDR with a "not present" completion code, which
+			// would fail the walk): there is nothing to retrieve
+			repo = &SDRRepository{}
+			return nil
+		}
 		// we could error here if unsupported SDR Repo version; no such cases
 		// currently exist
 		candidateRepo, err := walkSDRs(ctx, s)
